@@ -2,7 +2,7 @@
 import coq_cases
 import gen_common
 
-DEP_FILES = ["FlowSemModel.v", "FlowOpModel.v", "FlowOpProofs.v", "FlowBridge.v", "FlowAdequacy.v", "FlowComplete.v", "SchedFlowCompose.v"]
+DEP_FILES = ["FlowSemModel.v", "FlowOpModel.v", "FlowOpProofs.v", "FlowBridge.v", "FlowAdequacy.v", "FlowComplete.v", "FlowListing.v", "SchedFlowCompose.v"]
 PID = "C02"
 
 
